@@ -8,6 +8,7 @@ import (
 	sdk "github.com/cosmos/cosmos-sdk/types"
 	authkeeper "github.com/cosmos/cosmos-sdk/x/auth/keeper"
 	authtypes "github.com/cosmos/cosmos-sdk/x/auth/types"
+	banktypes "github.com/cosmos/cosmos-sdk/x/bank/types"
 	"github.com/ethereum/go-ethereum/common"
 
 	"github.com/teleport-network/teleport/x/aggregate/keeper"
@@ -75,4 +76,62 @@ func c13AggregateGenesis() {
 	}
 	gs2 := ExportGenesis(dst, *k)
 	rt.Assert("G3-aggregate-re-export-same", len(gs2.TokenPairs) == len(gs.TokenPairs) && gs2.Params.EnableAggregate == gs.Params.EnableAggregate && gs2.Params.EnableEVMHook == gs.Params.EnableEVMHook)
+}
+
+// a bank that answers the metadata question UpdateTokenPairERC20 asks in a way that lets the update go through
+type c13Bank struct{ md banktypes.Metadata }
+
+func (c13Bank) SendCoinsFromModuleToAccount(sdk.Context, string, sdk.AccAddress, sdk.Coins) error { return nil }
+func (c13Bank) SendCoinsFromAccountToModule(sdk.Context, sdk.AccAddress, string, sdk.Coins) error { return nil }
+func (c13Bank) MintCoins(sdk.Context, string, sdk.Coins) error                                    { return nil }
+func (c13Bank) BurnCoins(sdk.Context, string, sdk.Coins) error                                    { return nil }
+func (c13Bank) IsSendEnabledCoin(sdk.Context, sdk.Coin) bool                                      { return true }
+func (c13Bank) BlockedAddr(sdk.AccAddress) bool                                                   { return false }
+func (b c13Bank) GetDenomMetaData(sdk.Context, string) (banktypes.Metadata, bool)                 { return b.md, true }
+func (c13Bank) SetDenomMetaData(sdk.Context, banktypes.Metadata)                                  {}
+func (c13Bank) HasSupply(sdk.Context, string) bool                                                { return true }
+func (c13Bank) GetBalance(_ sdk.Context, _ sdk.AccAddress, d string) sdk.Coin                     { return sdk.Coin{Denom: d, Amount: sdk.ZeroInt()} }
+
+// VerifC13AggregateAfterUpdate: a pair that was re-pointed to another contract by the real UpdateTokenPairERC20 before the
+// export: after the import the pair record and both index entries sit under the same keys with the same values as in the
+// exporting store (the key of a pair record is its id; the index values are ids).
+func VerifC13AggregateAfterUpdate() {
+	rt.Override("(github.com/cosmos/cosmos-sdk/x/auth/keeper.AccountKeeper).GetModuleAccount", func(_ authkeeper.AccountKeeper, _ sdk.Context, name string) authtypes.ModuleAccountI {
+		return &authtypes.ModuleAccount{Name: name}
+	})
+	oldAddr, newAddr := common.BytesToAddress(rt.BytesN("oldAddr", 20)), common.BytesToAddress(rt.BytesN("newAddr", 20))
+	rt.Assume(oldAddr != newAddr)
+	data := types.ERC20Data{Name: rt.Str("erc20Name"), Symbol: rt.Str("erc20Symbol"), Decimals: rt.U8("erc20Decimals")}
+	rt.Override("(github.com/teleport-network/teleport/x/aggregate/keeper.Keeper).QueryERC20", func(_ keeper.Keeper, _ sdk.Context, c common.Address) (types.ERC20Data, error) {
+		return data, nil
+	})
+	md := banktypes.Metadata{Description: types.CreateDenomDescription(oldAddr.String()), Display: data.Name, Symbol: data.Symbol,
+		DenomUnits: []*banktypes.DenomUnit{{Denom: data.Name, Exponent: uint32(data.Decimals)}}}
+	k := keeper.NewKeeper(rt.StoreKey(types.StoreKey), rt.Codec(), rt.Subspace(), nil, c13Bank{md: md}, nil)
+	src := rt.EmptyCtx()
+	k.SetParams(src, types.Params{EnableAggregate: true, EnableEVMHook: true})
+	denom := rt.Str("denom0")
+	pair := types.NewTokenPair(oldAddr, []string{denom}, true, types.OWNER_EXTERNAL)
+	rt.Assume(pair.Validate() == nil)
+	k.SetTokenPair(src, pair)
+	k.SetDenomsMap(src, pair.Denoms, pair.GetID())
+	k.SetERC20Map(src, pair.GetERC20Contract(), pair.GetID())
+	_, err := k.UpdateTokenPairERC20(src, oldAddr, newAddr)
+	rt.Assume(err == nil)
+	rt.Reach("pair-re-pointed")
+
+	gs := ExportGenesis(src, *k)
+	rt.Assert("G1-aggregate-export-after-update-passes-validation", gs.Validate() == nil)
+	dst := rt.EmptyCtx()
+	if rt.NoPanic("G2-aggregate-import-does-not-panic", func() { InitGenesis(dst, *k, authkeeper.AccountKeeper{}, *gs) }) {
+		return
+	}
+	rt.Reach("imported")
+	idSrc, idDst := k.GetERC20Map(src, newAddr), k.GetERC20Map(dst, newAddr)
+	rt.Assert("G2-aggregate-contract-index-entry-identical", len(idSrc) != 0 && rt.BytesEq(idSrc, idDst))
+	rt.Assert("G2-aggregate-denomination-index-entry-identical", rt.BytesEq(k.GetDenomMap(src, denom), k.GetDenomMap(dst, denom)))
+	_, okSrc := k.GetTokenPair(src, idSrc)
+	_, okDst := k.GetTokenPair(dst, idSrc)
+	rt.Assert("G2-aggregate-pair-record-under-the-same-key", okSrc && okDst)
+	rt.Assert("G2-aggregate-old-contract-gone-in-both", len(k.GetERC20Map(src, oldAddr)) == 0 && len(k.GetERC20Map(dst, oldAddr)) == 0)
 }
